@@ -3969,6 +3969,12 @@ def lib_chainmap(ev, a, k, n, mod):
         if not isinstance(m_, DictV):
             raise ev.err("ChainMap of something that is not a constant-key dict", n, mod)
         out.d.update(m_.d)
+    # a mapping that answers every key (the scenario dictionaries of a rule): the first such mapping answers what the ones before it lack
+    for m_ in a:
+        if m_.default is not None:
+            shadow = [x.d for x in a[:a.index(m_)]]
+            out.default = (lambda m1, sh: (lambda key: next((d_[key] for d_ in sh if key in d_), None) or m1.default(key)))(m_, shadow)
+            break
     out.readonly = True
     return out
 
